@@ -515,7 +515,7 @@ def _iee_key_sizes(mode, size):
 
 def _iee_layout(rng, tier, small=False, nmax=4, modes=None):
     length = _len_class(rng, tier, IEE_UNIT, small)
-    base = _gen_base(rng, IEE_UNIT, True)
+    base = _gen_base(rng, IEE_UNIT, rng.random() < 0.5)   # half of the images start inside a 4 KiB sector
     regs, cov = _gen_regions(rng, IEE_UNIT, base, length, nmax)
     blobs = []
     for s, e in regs:
@@ -1170,12 +1170,30 @@ def _run_iee_cfg(ctx, case, cli):
     blobs = [(base, length)] + _extra_blobs(rng, regs, base, length, top, IEE_UNIT)
     d = _wdir(ctx, "iee")
     datas = []
+    names = []
     for i, (a, n) in enumerate(blobs):
         data = b"\x80" + _gen_image(rng, n)[1:]   # never mistaken for a text (HEX/S19) file by the loader
+        if n >= 0x60 and rng.random() < 0.35:
+            # the same bytes as an S-record / Intel-HEX file with a hole: two segments of whole blocks, each of which the
+            # engine must read back at ITS OWN address (the file's address space starts at 0 = the configured address)
+            from vf.refs import binimg
+
+            l1 = 16 * rng.randint(1, max(1, n // 48))
+            s2 = l1 + 16 * rng.randint(1, max(1, (n - l1) // 32))
+            l2 = (n - s2) // 16 * 16
+            if l2 >= 16:
+                fmt = core.pick(rng, ["s19", "hex"])
+                segs = [(0, data[:l1]), (s2, data[s2:s2 + l2])]
+                _write(os.path.join(d, f"blob{i}.{fmt}"), binimg.write_srec(segs) if fmt == "s19" else binimg.write_ihex(segs), "w")
+                names.append(f"blob{i}.{fmt}")
+                datas.extend((a + o, x) for o, x in segs)
+                ctx.count("iee_sparse_data_blobs")
+                continue
         _write(os.path.join(d, f"blob{i}.bin"), data)
+        names.append(f"blob{i}.bin")
         datas.append((a, data))
     cfg = {"family": fam, "output_folder": os.path.join(d, "out"), "keyblob_address": _num(rng, kb_addr),
-           "data_blobs": [{"data": f"blob{i}.bin", "address": _num(rng, a)} for i, (a, _n) in enumerate(blobs)]}
+           "data_blobs": [{"data": names[i], "address": _num(rng, a)} for i, (a, _n) in enumerate(blobs)]}
     kbl = []
     for b in lay["blobs"]:
         kb = {"aes_mode": b["mode"], "key_size": b["size"], "key1": "0x" + b["key1"], "key2": "0x" + b["key2"],
